@@ -216,11 +216,8 @@ pub fn lex_spans(src: &str) -> Result<Vec<(usize, usize, Tok)>, LexErr> {
                 let mut v: i128 = 0;
                 let mut nd = 0;
                 while j < cs.len() && cs[j].1.is_ascii_digit() {
-                    if nd < 30 {
-                        v = v * 10 + cs[j].1.to_digit(10).unwrap() as i128;
-                    } else {
-                        v = i128::MAX / 4;
-                    }
+                    // saturating accumulation: leading zeros are harmless, huge values stay huge
+                    v = (v * 10 + cs[j].1.to_digit(10).unwrap() as i128).min(i128::MAX / 100);
                     nd += 1;
                     j += 1;
                 }
